@@ -328,6 +328,10 @@ func DisplayLine(l *Line, indent int) {
 	}
 
 	for num, line := range lines {
+		// A wide character wrapped before the last column leaves
+		// that column as it was: have it cleared on the way.
+		line = strutil.ClearWrapped(line, indent)
+
 		// Don't let any visual selection go further than length.
 		line += color.BgDefault
 
